@@ -196,6 +196,15 @@ func Run(r *common.Run) error {
 			if len(f) < 3 || f[0] != "C06" || (len(f) < 4 && f[1] != "exp") {
 				continue
 			}
+			if f[1] == "ibbw" {
+				// the runner appends the wind-down itself
+				ops := strings.Split(f[3], ",")
+				if len(ops) >= 3 && strings.Join(ops[len(ops)-3:], ",") == "a,k,C" {
+					ops = ops[:len(ops)-3]
+				}
+				runIbbw(r, f[2], ops, "replay")
+				continue
+			}
 			if f[1] == "exp" && len(f) >= 3 {
 				runExpect(r, strings.Split(f[2], ","), "replay")
 				continue
@@ -236,6 +245,9 @@ func Run(r *common.Run) error {
 	runWraps(r)
 	// the listener's table of expected streams
 	runExpects(r)
+	// the waits of one in-band bytestream: blocked Read / Write / Close against peer packets on
+	// both carriers, peer close, replies
+	runIbbws(r)
 	// schedules generated from the Lean LTS by the driver
 	nGen := 0
 	if bin := findDriver(r.Dir); bin != "" {
